@@ -150,7 +150,7 @@ def cvalText : Option CVal → String
 
 def flagsText (f : Flags) : String :=
   let s := (if f.u then "u" else "") ++ (if f.c then "c" else "") ++ (if f.r then "r" else "") ++
-    (if f.f then "f" else "") ++ (if f.w then "w" else "")
+    (if f.f then "f" else "") ++ (if f.w then "w" else "") ++ (if f.p then "p" else "")
   if s.isEmpty then "-" else s
 
 /-- result of evaluating each definition's own body in the final C environment
